@@ -226,12 +226,12 @@ RULE_EXTRA = {
     "C06": "Also: Logons lacking 98 / 108; quiet-session oracle after 35 s of silence; logon parameter sweep (32 intervals incl. int64 wrap-around values x method x Opts.Tags full/minimal). Rounds 6-13: events Logon(141=Y), Heartbeat with zero-padded MsgSeqNum (+9), App(35=a); sweep: second logon of an initiating session through LogonRequest after a peer-begun and after a locally begun logout; the world's callbacks query the session.",
     "C07": "Also: Logons lacking 98 / 108; logon parameter sweep followed by three periods of silence and a TestRequest. Rounds 6-13: events Heartbeat with zero-padded MsgSeqNum, App(35=a).",
     "C08": "Also: second logon on the same connection (previous interval equal / smaller / larger); transient message-store failure on the k-th save (k <= 4). Rounds 6-13: inbound TestRequest as an action kind; sessions writing timestamps in Asia/Tokyo and America/New_York (skipped without a time-zone database).",
-    "C09": "Also: second logon on the same connection; inbound retransmissions (PossDupFlag=Y); silence after a pending or completed logout must end in the disconnect event. Rounds 6-13: inbound TestRequest as an action kind; time-zone cases as C08.",
+    "C09": "Also: second logon on the same connection; inbound retransmissions (PossDupFlag=Y); silence after a pending or completed logout must end in the disconnect event. Rounds 6-13: inbound TestRequest as an action kind; time-zone cases as C08. Round 16: inbound messages with a missing / non-numeric MsgSeqNum (pattern unreadable-seq) count as arrivals.",
     "C10": "Also: expected inbound number produced by real inbound histories (arrivals in every receiving state, three kinds of logout) followed by a second Logon with number expected+{0,1,3}. Rounds 6-13: one refused application message at every position (its number stays unused); 130-message (T: 260) histories with 12 ranges; a re-stamping application handler registered before the session starts; a store that keeps counterparties apart; histories crossing one million; SequenceReset and dropped-connection (no logout, next session on the same store) histories; two sessions on one store answering ResendRequests at once.",
     "C11": "Also: family (iii) CheckSum field not last; family (iv) framing fields in every order with impossible values; family (v) every field and every group count of every template (13 message types), one at a time, with each of 29 odd values (empty, lone sign, one byte, over-long digits, half a timestamp, non-ASCII), as a top-level field, inside the first and inside the second entry of its group(s). Rounds 6-13: session part also with every one-byte MsgType value and extreme BeginSeqNo/EndSeqNo tokens (-2^63, -2^62, -1, 2^63-1).",
     "C12": "Also: regeneration over an earlier, longer generation; every type re-spelled consistently in schema and mapping; one Generator object executed twice through the library API. Rounds 6-13: remove-pipeline and empty-container mutations (the generator may refuse); accept/refuse verdict determinism; output-directory forms mixed case / space / percent / non-ASCII / symbolic link; a second Generator on the same parsed schema object with another type mapping compared with a fresh parse.",
     "C14": "Also: Logout+Logon event; schedule part with a stalled writer (4-slot queue, 8 requests, delay bound 1/2). Rounds 6-13: events ResendRequest(1,0) and TestRequest with zero-padded BodyLength (two paddings).",
-    "C15": "Also: endings that begin while the session's own TestRequest is outstanding; Stop with a full outgoing queue. Rounds 6-13: Logout from inside the logon callback; an application logout callback returning false before Stop; initiator re-logon through LogonRequest after both logout endings.",
+    "C15": "Also: endings that begin while the session's own TestRequest is outstanding; Stop with a full outgoing queue. Rounds 6-13: Logout from inside the logon callback; an application logout callback returning false before Stop; initiator re-logon through LogonRequest after both logout endings. Round 16: Stop called twice before the answer.",
     "C16": "Also: intact admin messages without MsgSeqNum; a tag ending in 34 / text 34= ahead of MsgSeqNum; 32 s of silence; connection-level part (damaged message + valid follower through the real Conn, 360 cases). Rounds 6-13: events Logon(141=Y), Heartbeat with zero-padded MsgSeqNum, App(35=a); three sessions built from one options object, one of them given an unmarshaller of its own.",
     "C17": "Also: as C01 (earlier bytes intact, non-canonical float texts, refused Set). Rounds 6-13: as C01; between two serialisations of a message another message of the same type with another BeginString is parsed into an object of its own (the first one's bytes must not change).",
     "C18": "Also: look-alikes of BeginString / BodyLength / MsgType / MsgSeqNum in the connection phase; session-level decoys of MsgType / MsgSeqNum with the SequenceReset builder configured.",
